@@ -148,7 +148,7 @@ impl Drop for EventSender<'_> {
             kind: EventKind::Done,
             co: None,
         });
-        self.cqueue.cnt.fetch_sub(1, Ordering::Relaxed);
+        self.cqueue.cnt.fetch_sub(1, Ordering::Release);
         if let Some(w) = self.cqueue.to_wake.take() {
             w.unpark();
         }
@@ -250,10 +250,13 @@ impl Cqueue {
 
         let deadline = timeout.map(|dur| Instant::now() + dur);
         loop {
+            // read the count before the queue: when it is zero every Done event
+            // is already pushed, so an empty queue means they were all consumed
+            let all_done = self.cnt.load(Ordering::Acquire) == 0;
             match self.ev_queue.pop() {
                 Some(mut ev) => run_ev!(ev),
                 None => {
-                    if self.cnt.load(Ordering::Relaxed) == 0 {
+                    if all_done {
                         return Err(PollError::Finished);
                     }
                 }
